@@ -9,5 +9,5 @@ CONSTANTS
   Exts = {FALSE, TRUE}
   Ranges = "all"
   EmitMode = "none"
-INVARIANTS Conforms StreamedSamplesComplete EmitWalk
+INVARIANTS Conforms StreamedSamplesComplete NoDuplicateSeries EmitWalk
 CHECK_DEADLOCK FALSE
